@@ -59,6 +59,15 @@ MUTANTS = [
     M("c16-absmax-no-abs", "C16", "break", [("optimum/quanto/tensor/optimizers/absmax_optimizer.py", "        base = torch.abs(base)\n", "")], "C16.R5"),
     M("c16-zp-product-first", "C16", "break", [(MAXOPT, "        zeropoint = torch.round(-rmin / scale).to(torch.int8)", "        zeropoint = torch.round(-rmin * (qmax - qmin) / (rmax - rmin)).to(torch.int8)")], "C16.R6"),
     M("c16-repaired-width", "C16", "refactor", [(MAXOPT, "        scale = (rmax - rmin) / (qmax - qmin)", "        scale = rmax / (qmax - qmin) - rmin / (qmax - qmin)")]),
+    # ---------------- rules from the third round of seeded changes
+    M("c03-group-early-exit-rank3", "C03", "break", [(GROUP, "        return base.reshape([-1, group_size])", "        if base.shape[-1] == group_size:\n            return base\n        return base.reshape([-1, group_size])")], "C03.R5"),
+    M("c02-group-early-exit-rank3", "C02", "break", [(GROUP, "        return base.reshape([-1, group_size])", "        if base.shape[-1] == group_size:\n            return base\n        return base.reshape([-1, group_size])")], "C02.R4"),
+    M("c05-pad-registered-as-move", "C05", "break", [(OPS, "        torch.ops.aten.expand,\n", "        torch.ops.aten.expand,\n        torch.ops.aten.constant_pad_nd,\n")], "C05.R4"),
+    M("c06-base-ctor-rewrites-axis", "C06", "break", [("optimum/quanto/tensor/qtensor.py", "        self._qtype = qtype\n        self._axis = axis", "        self._qtype = qtype\n        if axis is not None and self.shape[axis] == 1:\n            axis = None\n        self._axis = axis")], "C06.R3"),
+    M("c08-exact-type-lookup", "C08", "break", [(QMOD, "    for cls in _QMODULE_TABLE:\n        if isinstance(module, cls):\n            qcls, qparams = _QMODULE_TABLE[cls]", "    for cls in _QMODULE_TABLE:\n        if type(module) is cls:\n            qcls, qparams = _QMODULE_TABLE[cls]")], None),
+    M("c02-zp-half-trunc", "C02", "break", [(MAXOPT, "        zeropoint = torch.round(-rmin / scale).to(torch.int8)", "        zeropoint = (-rmin / scale + 0.5).to(torch.int8)")], "C02.R5"),
+    M("c07-transpose-stale-axis", "C07", "break", [(OPS, "        out_axis = 0 if out_axis == -1 else -1", "        out_axis = 0 if out_axis == input.ndim - 1 else -1")], "C07.R7"),
+    M("c07-mm-via-kernel-linear-convention", "C07", "break", [(OPS, "            out_data = torch._int_mm(input._data, other._data)\n", "            return torch.ops.quanto.qbytes_mm(input._data, other._data.t(), input._scale * other._scale.t())\n            out_data = torch._int_mm(input._data, other._data)\n")], None),
     # ---------------- idiom refactors that the second batch of independent patches exposed
     M("c14-refactor-group-demorgan", "C14", "refactor", [(GROUP, "    if group_size > axis_numel or axis_numel % group_size != 0:", "    if not (group_size <= axis_numel and axis_numel % group_size == 0):")]),
     M("c14-group-guard-weakened", "C14", "break", [(GROUP, "    if group_size > axis_numel or axis_numel % group_size != 0:", "    if group_size > axis_numel and axis_numel % group_size != 0:")], "C14.R1"),
